@@ -159,6 +159,14 @@ def check(ctx):
             tags = fr[36:]
             for b in perturbations(tags, rnd, False):
                 lines.append("it " + hx(b))
+    # every tag region of up to three octets over the element numbers the parsers treat specially, as the whole
+    # element region of every parsable subtype (a zero-length first element is accepted by the iterator)
+    alpha = [0, 1, 2, 3, 4, 48, 61, 221, 255]
+    regions = [bytes([a]) for a in alpha] + [bytes([a, b]) for a in alpha for b in alpha] + [bytes([a, b, c]) for a in (0, 3, 48, 61, 221) for b in (0, 1, 2, 4) for c in alpha]
+    for kind in frames.PARSABLE:
+        for reg in regions:
+            fr = frames.mgmt(kind, rnd, reg, order=(len(reg) + len(kind)) % 5 == 0)
+            lines.append("mp 0 " + hx(fr))
     fw.run_suite(ctx, exe, "S-safe/structured", lines, "parse of a perturbed frame")
     # ---- corpora of the functional checks
     cap = 20000 if thorough else 1500
